@@ -19,6 +19,22 @@ pub struct Graph {
     pub edges: Vec<Vec<usize>>,
     pub start: usize,
     pub noise: Noise,
+    /// namespace URIs whose last segment (and so zeep's three-letter abbreviation) coincides
+    #[serde(default)]
+    pub same_suffix: bool,
+    /// every file declares an xmlns prefix for each namespace it imports (as real schemas do)
+    #[serde(default)]
+    pub declare_prefixes: bool,
+    /// files sharing one target namespace (a namespace split over several schema documents):
+    /// file i declares namespace tns_of[i] (empty = each file its own)
+    #[serde(default)]
+    pub tns_of: Vec<usize>,
+}
+
+impl Graph {
+    fn nsi(&self, i: usize) -> usize {
+        self.tns_of.get(i).copied().unwrap_or(i)
+    }
 }
 
 #[derive(Clone, Copy, Debug, serde::Serialize, serde::Deserialize, PartialEq, Eq)]
@@ -39,21 +55,34 @@ pub fn file_name(i: usize) -> String {
     format!("f{i}.xsd")
 }
 
-fn ns(i: usize) -> String {
-    format!("http://example.org/graph/{}", SEGS[i])
+fn ns(i: usize, same_suffix: bool) -> String {
+    if same_suffix { format!("http://example.org/{}/typ", SEGS[i]) } else { format!("http://example.org/graph/{}", SEGS[i]) }
 }
 
 pub fn components(i: usize) -> Vec<String> {
     vec![format!("Ct{i}Node"), format!("St{i}Code"), format!("El{i}Root")]
 }
 
-fn schema_text(i: usize, imports: &[usize]) -> String {
+fn schema_text(g: &Graph, i: usize) -> String {
+    let imports = &g.edges[i];
+    let mut decls = String::new();
+    if g.declare_prefixes {
+        let mut seen = BTreeSet::new();
+        for j in imports {
+            if g.nsi(*j) != g.nsi(i) && seen.insert(g.nsi(*j)) {
+                decls += &format!(" xmlns:p{j}=\"{}\"", ns(g.nsi(*j), g.same_suffix));
+            }
+        }
+    }
     let mut s = format!(
-        "<?xml version=\"1.0\"?>\n<xs:schema xmlns:xs=\"http://www.w3.org/2001/XMLSchema\" xmlns:tns=\"{0}\" targetNamespace=\"{0}\" elementFormDefault=\"qualified\">\n",
-        ns(i)
+        "<?xml version=\"1.0\"?>\n<xs:schema xmlns:xs=\"http://www.w3.org/2001/XMLSchema\"{1} xmlns:tns=\"{0}\"{2} targetNamespace=\"{0}\" elementFormDefault=\"qualified\">\n",
+        ns(g.nsi(i), g.same_suffix),
+        // odd files declare the foreign prefixes before their own one, even files after it
+        if i % 2 == 1 { decls.as_str() } else { "" },
+        if i % 2 == 1 { "" } else { decls.as_str() },
     );
     for j in imports {
-        s += &format!("  <xs:import namespace=\"{}\" schemaLocation=\"{}\"/>\n", ns(*j), file_name(*j));
+        s += &format!("  <xs:import namespace=\"{}\" schemaLocation=\"{}\"/>\n", ns(g.nsi(*j), g.same_suffix), file_name(*j));
     }
     s += &format!(
         "  <xs:complexType name=\"Ct{i}Node\"><xs:sequence><xs:element name=\"label\" type=\"xs:string\"/><xs:element name=\"count\" type=\"xs:int\" minOccurs=\"0\"/></xs:sequence></xs:complexType>\n  <xs:simpleType name=\"St{i}Code\"><xs:restriction base=\"xs:string\"><xs:maxLength value=\"8\"/></xs:restriction></xs:simpleType>\n  <xs:element name=\"El{i}Root\"><xs:complexType><xs:sequence><xs:element name=\"item\" type=\"xs:string\" maxOccurs=\"unbounded\"/></xs:sequence></xs:complexType></xs:element>\n</xs:schema>\n"
@@ -80,7 +109,7 @@ pub fn render(g: &Graph) -> FileSet {
     for i in 0..g.n {
         let name = file_name(i);
         if reach.contains(&i) || g.noise == Noise::None {
-            files.push((name, schema_text(i, &g.edges[i])));
+            files.push((name, schema_text(g, i)));
             continue;
         }
         match g.noise {
@@ -145,6 +174,15 @@ fn shape_classes(g: &Graph) -> Vec<&'static str> {
     }
     if reach.len() < g.n {
         c.push("unreachable-sibling");
+    }
+    if g.same_suffix {
+        c.push("colliding-namespace-abbreviations");
+    }
+    if g.declare_prefixes {
+        c.push("importer-declares-prefixes");
+    }
+    if (0..g.n).any(|i| (0..i).any(|j| g.nsi(i) == g.nsi(j) && reach.contains(&i) && reach.contains(&j))) {
+        c.push("namespace-split-over-files");
     }
     if (0..g.n).any(|i| {
         let mut e = g.edges[i].clone();
@@ -241,7 +279,17 @@ fn enumerate(n: usize) -> Vec<Graph> {
             }
         }
         for start in 0..n {
-            out.push(Graph { n, edges: edges.clone(), start, noise: Noise::None });
+            // the namespace style rotates over the enumeration so that all four styles are met
+            // by every small shape class (each graph x start also appears in the plain style)
+            out.push(Graph { n, edges: edges.clone(), start, noise: Noise::None, same_suffix: false, declare_prefixes: false, tns_of: vec![] });
+            let k = (mask as usize + start) % 3;
+            out.push(Graph { n, edges: edges.clone(), start, noise: Noise::None, same_suffix: k != 1, declare_prefixes: k != 0, tns_of: vec![] });
+            if n >= 2 {
+                // a namespace split over two files: the last file shares the namespace of file 0 or 1
+                let mut tns_of: Vec<usize> = (0..n).collect();
+                tns_of[n - 1] = (mask as usize / 3) % (n - 1);
+                out.push(Graph { n, edges: edges.clone(), start, noise: Noise::None, same_suffix: k != 2, declare_prefixes: k != 1, tns_of });
+            }
         }
     }
     out
@@ -255,9 +303,12 @@ fn arb_graph() -> impl Strategy<Value = Graph> {
                 proptest::collection::vec(proptest::collection::vec(0usize..n, 0..4), n),
                 0usize..n,
                 prop_oneof![Just(Noise::None), Just(Noise::UnreachableRemoved), Just(Noise::UnreachableBroken), Just(Noise::UnreachableOtherSchema)],
+                any::<bool>(),
+                any::<bool>(),
+                prop_oneof![Just(vec![]), proptest::collection::vec(0usize..n, n)],
             )
         })
-        .prop_map(|(n, edges, start, noise)| Graph { n, edges, start, noise })
+        .prop_map(|(n, edges, start, noise, same_suffix, declare_prefixes, tns_of)| Graph { n, edges, start, noise, same_suffix, declare_prefixes, tns_of })
 }
 
 pub fn run(tier: Tier) -> i32 {
@@ -267,7 +318,7 @@ pub fn run(tier: Tier) -> i32 {
         "C11",
         tier,
         "exploration",
-        "import graphs: EXHAUSTIVE over all directed graphs with self-loops on 1..=3 files (quick) / 1..=4 files (thorough) x every start file, each file declaring a complex type, a simple type and an anonymous-typed global element with names unique to it; proptest-generated graphs on 5-8 files with repeated imports; every graph with unreachable files is also run with those files removed / replaced by malformed and non-schema XML / replaced by other schemas, and the output must be byte-identical. Each generation runs in an isolated worker process (exit class + wall time). Oracle: BFS reachability => expected multiset of struct names (syn). Non-trivial: graph with a cycle, a self-import, a diamond or an unreachable sibling; distinct by (edges, start, noise).",
+        "import graphs: EXHAUSTIVE over all directed graphs with self-loops on 1..=3 files (quick) / 1..=4 files (thorough) x every start file, each file declaring a complex type, a simple type and an anonymous-typed global element with names unique to it, in four namespace styles (distinct or colliding three-letter abbreviations x importer declares prefixes for what it imports or not) and with one namespace split over two files; proptest-generated graphs on 5-8 files with repeated imports; every graph with unreachable files is also run with those files removed / replaced by malformed and non-schema XML / replaced by other schemas, and the output must be byte-identical. Each generation runs in an isolated worker process (exit class + wall time). Oracle: BFS reachability => expected multiset of struct names (syn). Non-trivial: graph with a cycle, a self-import, a diamond or an unreachable sibling; distinct by (edges, start, noise).",
     );
     ev.assume("struct names are read from the output with syn (text scan if the output does not parse)");
     let nmax = tier.pick(3, 4);
